@@ -109,9 +109,52 @@ def m_chunks(k):
         for x in s:
             buf.append(x)
             if len(buf) == k:
-                yield buf
+                yield "".join(buf) if all(isinstance(y, str) for y in buf) else buf
                 buf = []
     return f
+
+
+FIN = [7, 8, 9]
+
+
+def m_zip_fin(left):
+    def f(s):
+        for i, x in enumerate(s):
+            o = FIN[i] if i < len(FIN) else 0
+            yield [o, x] if left else [x, o]
+    return f
+
+
+def m_arith_fin(op):
+    def f(s):
+        for i, x in enumerate(s):
+            yield op(x, FIN[i]) if i < len(FIN) else op(x, None)
+    return f
+
+
+def m_il_fin(first):
+    def f(s):
+        it = iter(s)
+        for v in FIN:
+            if first:
+                yield v
+                yield next(it)
+            else:
+                yield next(it)
+                yield v
+        yield from it
+    return f
+
+
+def m_prepend_fin(s):
+    yield from FIN
+    yield from s
+
+
+def m_cart_fin(s):
+    for x in s:
+        yield [x, 7]
+        yield [x, 8]
 
 
 def flat(x):
@@ -281,6 +324,20 @@ entry("powerset", "ṗ", 1, 0, m_powerset, needs="any", out="list", first_only=T
 entry("sublists", "ÞS", 1, 0, m_sublists, needs="any", out="list", first_only=True)
 entry("cartesian2", "2 Ẋ", 1, 1, m_cart2, needs="any", out="list", first_only=True)
 entry("truthy_idx", "T", 1, 0, m_truthy_idx, needs="any", out="num", first_only=True)
+# a stream of strings (the all-strings fast paths of chunking / joining)
+entry("map_str", "ƛS;", 1, 0, lambda s: (str(x) for x in s), needs="num", out="str", keeps=("inj",))
+entry("str_suffix", "`a` +", 1, 0, lambda s: (str(x) + "a" for x in s), needs="str", out="str", keeps=("inj",))
+# dyads whose other operand is a FINITE list: behaviour past the end of the shorter side
+entry("zip_fin", "⟨7|8|9⟩ Z", 1, 0, m_zip_fin(False), needs="any", out="list", keeps=("inj",))
+entry("zip_fin_l", "⟨7|8|9⟩ $ Z", 1, 0, m_zip_fin(True), needs="any", out="list", keeps=("inj",))
+entry("add_fin", "⟨7|8|9⟩ +", 1, 0, m_arith_fin(lambda x, f: x + (f or 0)), needs="num")
+entry("add_fin_l", "⟨7|8|9⟩ $ +", 1, 0, m_arith_fin(lambda x, f: x + (f or 0)), needs="num")
+entry("mul_fin", "⟨7|8|9⟩ *", 1, 0, m_arith_fin(lambda x, f: x * (f or 0)), needs="num")
+entry("sub_fin", "⟨7|8|9⟩ -", 1, 0, m_arith_fin(lambda x, f: x - (f or 0)), needs="num")
+entry("il_fin", "⟨7|8|9⟩ Y", 1, 1, m_il_fin(False), needs="any", out="mixed")
+entry("il_fin_l", "⟨7|8|9⟩ $ Y", 1, 1, m_il_fin(True), needs="any", out="mixed")
+entry("prepend_fin", "⟨7|8|9⟩ $ J", 1, 0, m_prepend_fin, needs="any", out="mixed")
+entry("cart_fin", "⟨7|8⟩ Ẋ", 1, 1, m_cart_fin, needs="any", out="list", first_only=True)
 
 NAMES = sorted(CAT)
 
@@ -290,6 +347,10 @@ def compatible(prev_out, props, e):
     need = e["needs"]
     if need == "any":
         return True
+    if need == "str":
+        return prev_out in ("num", "str")
+    if prev_out in ("str", "strlist"):
+        return need == "inj" and "inj" in props  # uniquify / group / remove work on any distinct items
     if need == "num":
         return prev_out == "num"
     if need == "arith":
@@ -310,9 +371,13 @@ def out_type(prev_out, e):
     if o == "same":
         return prev_out
     if o == "mixed":
-        return "mixed"
+        return "strlist" if prev_out in ("str", "strlist") else "mixed"
     if o == "list":
+        if prev_out in ("str", "strlist"):
+            return "strlist"
         return "list" if prev_out == "num" else "list2"
+    if o == "mixed" and prev_out in ("str", "strlist"):
+        return "strlist"
     return o
 
 
@@ -382,7 +447,7 @@ class C14(core.Check):
         "density-sensitive transformations (filters, uniquify, remove, group) are only placed where the input stream "
         "keeps the property their bound needs",
     ]
-    rule = ("one run = a pipeline of 1-3 catalogued transformations (52 entries) applied by transpiled program text to an "
+    rule = ("one run = a pipeline of 1-3 catalogued transformations (67 entries) applied by transpiled program text to an "
             "instrumented infinite source, plus a demand schedule (index / first-n / stepping / resumption / two "
             "pipelines over `:`-copies pulled alternately / abandonment), n <= 40. distinct = distinct (pipeline(s), "
             "demand pattern, n); non-trivial = every run (each is judged on termination, pull bound and values).")
